@@ -13,6 +13,8 @@ Inductive e2e_op :=
 | XConnect (tok : nat)                 (* c<tok>: a client connects *)
 | XFinish (cid : N)                    (* f<cid>: the client closes, its service call ends *)
 | XPause | XResume                     (* ServerHandle::pause / resume *)
+| XBurst (resumes : list bool)         (* Q<cmds>: pause()/resume() calls issued back to back (true = resume): all of them are in
+                                          the server's command channel, then in the accept thread's queue, before anything runs *)
 | XEmfile (tok : nat)                  (* E<tok>: a client connects while accept() fails with EMFILE (one-shot) *)
 | XAdvance (ms : N)                    (* +<ms> *)
 | XKill (tok : nat)                    (* K<tok>: the service call of this connection panics: its worker dies *)
@@ -95,6 +97,7 @@ Definition e2e_ops (st : state) (next : N) (o : e2e_op) : list op * N :=
       end
   | XPause => (settled_ops st [E (Command CPause)], next)
   | XResume => (settled_ops st [E (Command CResume)], next)
+  | XBurst rs => (settled_ops st (map (fun r : bool => E (Command (if r then CResume else CPause))) rs), next)
   | XEmfile tok => (settled_ops st [E (Inject tok EOther); E (Connect tok next)], (next + 1)%N)
   | XAdvance ms => (settled_ops st [Advance ms], next)
   | XKill tok => (settled_ops st (kill_ops st tok next), (next + 1)%N)
